@@ -209,7 +209,7 @@ def _cmp(left: ast.AST, op: ast.cmpop, right: ast.AST, env: GuardEnv):
         lt, rt = rt, lt
     if t is ast.Is and rt == "None" or t is ast.Is and lt == "None":
         other = lt if rt == "None" else rt
-        a = Atom(f"{other} is None")
+        a = Atom(env.rename(f"{other} is None"))
     else:
-        a = Atom(f"{lt} {_CMP_TXT[t]} {rt}")
+        a = Atom(env.rename(f"{lt} {_CMP_TXT[t]} {rt}"))
     return Not(a) if neg else a
